@@ -27,7 +27,7 @@ EXC_NAMES_ = sorted(['InjectedFault'] + [b.__name__ for b in (KeyError, IndexErr
 FORMS = ['convert-callable', 'convert-multi', 'convert-method', 'convert-passrow', 'convert-where', 'convertall', 'fieldmap', 'rowmap', 'rowmapmany']
 REQUIRED = (['form:' + f for f in FORMS] + ['policy:False', 'policy:True', 'policy:inline', 'via:config', 'via:arg',
             'fail-first-row', 'fail-last-row', 'fail-consecutive', 'fail-all-rows', 'exception-surfaced-at-failing-row',
-            'inline-exception-delivered', 'errorvalue-delivered', 'row-dropped', 'generator-rows-kept-before-failure'] +
+            'inline-exception-delivered', 'errorvalue-delivered', 'row-dropped', 'generator-rows-kept-before-failure', 'rowmap:lazy-mapper-result'] +
             ['exc:' + e for e in EXC_NAMES_])
 EXHAUSTIVE = {'quick': True, 'thorough': True}
 
@@ -78,6 +78,12 @@ def cases(ctx):
                                         for exc in excs:
                                             yield {'form': form, 'n': n, 'failrows': list(failrows), 'failfields': list(ff), 'policy': policy,
                                                    'via': via, 'errorvalue': ev, 'pre': pre, 'exc': exc}
+                                            if form == 'rowmap' and failrows and exc != 'StopIteration':
+                                                # the mapper may return any iterable of cells; a lazy one fails while petl builds the row
+                                                # (a StopIteration out of a lazy result just ends that iterable: Python's semantics, not a failure)
+                                                yield {'form': form, 'n': n, 'failrows': list(failrows), 'failfields': list(ff), 'policy': policy,
+                                                       'via': via, 'errorvalue': ev, 'pre': pre, 'exc': exc,
+                                                       'lazy': ('generator', 'genexp', 'map')[count[0] % 3]}
 
 
 def _table(case):
@@ -173,6 +179,27 @@ def judge(case, ctx):
             if row['id'] in failrows:
                 raise Fault((row['id'], 'row'))
             return [row['id'], row['a'].upper(), row['b'].upper()]
+        lazy = case.get('lazy')
+        if lazy:
+            ctx.seen('rowmap:lazy-mapper-result')
+
+            def cell(row, j):
+                if j == 1 and row['id'] in failrows:
+                    raise Fault((row['id'], 'row'))
+                return [row['id'], row['a'], row['b']][j] if j == 0 else [row['id'], row['a'], row['b']][j].upper()
+            if lazy == 'generator':
+                def mapper(row):        # noqa: F811
+                    calls.append((row['id'], 'row'))
+                    for j in range(3):
+                        yield cell(row, j)
+            elif lazy == 'genexp':
+                def mapper(row):        # noqa: F811
+                    calls.append((row['id'], 'row'))
+                    return (cell(row, j) for j in range(3))
+            else:
+                def mapper(row):        # noqa: F811
+                    calls.append((row['id'], 'row'))
+                    return map(lambda j: cell(row, j), range(3))
         view = petl.rowmap(table, mapper, ['id', 'A', 'B'], **kw)
     elif form == 'rowmapmany':
         def gen(row):
